@@ -106,7 +106,7 @@ def selRecursion (guard : Bool) : Nat → Nat → Pair → Nat
 def maxDepth : Nat := AGV.Gen.ParserLimits.maxRecursionDepth
 
 /-- the grammar of the real parser: the generated translation of `graphql.pest` -/
-def grammar : AGV.Model.Peg.Grammar := AGV.Gen.Grammar.grammar
+abbrev grammar : AGV.Model.Peg.Grammar := AGV.Gen.Grammar.grammar
 
 /-- the recursive descent of the parser on `s` from `rule` is cut off at depth `f` -/
 def cutOffAt (rule : String) (s : List Char) (f : Nat) : Bool :=
@@ -159,6 +159,14 @@ def scanStep (st : Scan) (c : Char) : Scan :=
   | _ => { st with mode := 6 }
 
 def nestingDepth (s : List Char) : Nat := (s.foldl scanStep {}).mx
+
+/-- nesting of `[ { (` over ALL characters, strings included: an upper bound of what any layer
+    (JSON text, the document inside a JSON string, a percent-decoded query string) can see -/
+def rawDepth (s : List Char) : Nat :=
+  (s.foldl (fun (st : Nat × Nat) c =>
+    if c = '[' || c = '{' || c = '(' then (st.1 + 1, max st.2 (st.1 + 1))
+    else if c = ']' || c = '}' || c = ')' then (st.1 - 1, st.2)
+    else st) (0, 0)).2
 
 def parserRecursionDepth (D : Defects) (s : List Char) : Nat :=
   if !D.noNestingLimit && nestingDepth s > nestingLimit then 0
@@ -226,6 +234,19 @@ def nestAnswer (exec : Bool) (kind : String) (n : Nat) : Option Ans :=
   else if kind = "fragchain" ∨ kind = "fragbomb" then some (if exec && n > execRecursiveDepth then .err else .ok)
   else if kind = "fragcycle" then some (if exec then .err else .ok)
   else none
+
+/-- bracket nesting depth of the text of member `n` of a family (what the pre-scan counts) -/
+def nestTextDepth (kind : String) (n : Nat) : Nat :=
+  if kind = "list" ∨ kind = "obj" ∨ kind = "listopen" ∨ kind = "objopen" then n + 2
+  else if kind = "sel" ∨ kind = "inline" ∨ kind = "selopen" then n
+  else if kind = "type" ∨ kind = "constlist" then n + 1
+  else 3
+
+/-- the answer of a tree with the pre-scan (`noNestingLimit` off): deeper than `nestingLimit` is
+    refused before anything recursive runs -/
+def nestAnswerD (D : Defects) (exec : Bool) (kind : String) (n : Nat) : Option Ans :=
+  if !D.noNestingLimit && nestTextDepth kind n > nestingLimit then some .err
+  else nestAnswer exec kind n
 
 /-- families whose members nest brackets / selection sets `n` deep (the recursive descent goes
     at least that deep) -/
